@@ -354,6 +354,10 @@ def run(ctx) -> None:
     r3_wire(ctx, nf)
     r4_model(ctx, nf)
     r5_hugr(ctx)
+    ctx.rule("C11.R6", "a resolved type reports the bound its definition declares: explicit, or the join over the type arguments at the named indices (shared with C07.R2)", floor=10)
+    from .c07 import r2_table
+    with ctx.as_rule(C07_R2="C11.R6"):
+        r2_table(ctx, nf)
     from .. import lints
     lints.arm(ctx)
 
